@@ -30,9 +30,17 @@ def _tagged_buffer(E, T):
 
 
 def _tags(buf):
-    """(tags from `rewards`, every leaf consistent with that tag?) for a buffer of any batch shape"""
+    """(tags from `rewards`, every leaf consistent with that tag?) for a buffer of any batch shape;
+    leaves whose batch shape no longer matches the rewards' count as misaligned"""
     t = np.asarray(buf.rewards, dtype=np.float64)
     ti = t.astype(np.int64)
+    try:
+        return ti, _aligned(buf, t, ti)
+    except (ValueError, IndexError):   # some leaf was flattened over other axes
+        return ti, np.zeros(t.shape, dtype=bool)
+
+
+def _aligned(buf, t, ti):
     ok = (
         (np.asarray(buf.observations["a"])[..., 0] == t) & (np.asarray(buf.observations["a"])[..., 1] == t + 0.25)
         & (np.asarray(buf.observations["b"]) == t[..., None, None]).all(axis=(-1, -2))
@@ -41,7 +49,7 @@ def _tags(buf):
         & (np.asarray(buf.states.count) == ti)
         & (np.asarray(buf.action_masks) == ((ti[..., None] % np.array([2, 3, 5])) == 0)).all(axis=-1)
         & (np.asarray(buf.returns) == t + 0.625) & (np.asarray(buf.advantages) == t + 0.75))
-    return ti, ok
+    return np.broadcast_to(ok, t.shape)
 
 
 def check_buffer_api(ctx, E, T, Bs):
@@ -64,6 +72,21 @@ def check_buffer_api(ctx, E, T, Bs):
         ctx.phi_fail("flatten_bijective", {**case, "axes": [1, 0], "flat_tags": ft2})
     if ft2.tolist() != m["transposed"]:
         ctx.disagree("flatten_axes((1,0))", case, impl=ft2, model=m["transposed"])
+    # negative axes must address the same buffer axes as their non-negative spelling, for every leaf
+    for axes, ref in [((-2, -1), (0, 1)), ((-1, -2), (1, 0)), ((0, -1), (0, 1)), (-1, 1)]:
+        fa, oka = _tags(buf.flatten_axes(axes))
+        fr, _ = _tags(buf.flatten_axes(ref))
+        ctx.case({"kind": "flatten-negative-axes", "axes": axes if isinstance(axes, int) else list(axes), "E": E, "T": T}, True)
+        ctx.count("flatten:negative-axes")
+        if not oka.all() or fa.shape != fr.shape or (fa != fr).any():
+            ctx.phi_fail("fields_stay_together_under_negative_batch_axes",
+                         {**case, "axes": axes if isinstance(axes, int) else list(axes), "flat_tags": fa,
+                          "leaves_aligned": bool(oka.all())}, key="c09:negative-axes")
+    if N >= 2:
+        bt, bok = _tags(buf.batches(2, key=jr.key(3), batch_axes=(-2, -1)))
+        if not bok.all():
+            ctx.phi_fail("batches_rows_intact_under_negative_batch_axes", {**case, "batches_tags": bt},
+                         key="c09:negative-axes-batches")
     # resolve_axes
     for axes in [None, 0, 1, -1, -2, (0, 1), (1, 0), (-1, 0), (0, 0), (0, -2), (2,), (-3,), (0, 1, 1)]:
         try:
